@@ -178,7 +178,9 @@ def enumerated(seed, quick):
     # and one channel probabilities), with and without the Bayes update
     for cls, size in (('RotatedPlanar2DCode', (2, 2)), ('Planar2DCode', (2, 2))):
         for cu in (False, True):
-            for rate in (0.0, 1.0, 0.5):
+            # (0 and 1 also as Python ints, as a hand-written input file or
+            # a call like run_once(..., error_rate=1) hands them over)
+            for rate in (0.0, 1.0, 0.5, 0, 1):
                 for direction in domain.DIRECTION_POOL[:6]:
                     for nd in (None, 'XZZX'):
                         i += 1
